@@ -3,6 +3,7 @@
 package zzverif
 
 import (
+	"reflect"
 	"bytes"
 	"context"
 	"crypto/ecdsa"
@@ -247,7 +248,7 @@ func runWorld(t *testing.T, cfg WorldCfg, devs map[int]int, body func(w *World),
 			resetGlobalContext()
 			chf_context.Init()
 			self := chf_context.GetSelf()
-			self.LocalRecordSequenceNumber = cfg.LocalSeq
+			reflect.ValueOf(self).Elem().FieldByName("LocalRecordSequenceNumber").SetUint(cfg.LocalSeq) // (by reflection: the harness must build whatever the counter's width)
 			self.OAuth2Required = cfg.OAuth
 			var wg sync.WaitGroup
 			if !cfg.NoRF {
@@ -429,7 +430,7 @@ func (w *World) snapshot(withGor bool) Snap {
 		}
 	}
 	self := chf_context.GetSelf()
-	s.LocalSeq = self.LocalRecordSequenceNumber
+	s.LocalSeq = reflect.ValueOf(self).Elem().FieldByName("LocalRecordSequenceNumber").Uint()
 	self.UePool.Range(func(k, v any) bool {
 		ue := v.(*chf_context.ChfUe)
 		u := UESnap{Reserved: map[int32]int64{}, RatingType: map[int32]int{}, UnitCost: map[int32]uint32{}, ReqNum: map[int32]uint32{},
